@@ -258,15 +258,23 @@ func r15h(c *core.Ctx) {
 	}
 	limPkg := core.PkgPath("internal/limiter")
 	var clientCall *ssa.Call
-	for _, call := range core.Calls(fn) {
-		callee := core.StaticCallee(call)
-		if callee == nil || callee.Pkg == nil || callee.Pkg.Pkg.Path() != limPkg || callee.Signature.Recv() == nil {
+	cFn := fn
+	for _, hf := range helperReach(fn, 1) {
+		if hf.Parent() != nil {
 			continue
 		}
-		// the per-client limiter is the one that is given the client address
-		for _, a := range core.CallArgs(call)[1:] {
-			if core.TypeName(a.Type()) == "net/netip.Addr" {
-				clientCall, _ = call.(*ssa.Call)
+		for _, call := range core.Calls(hf) {
+			callee := core.StaticCallee(call)
+			if callee == nil || callee.Pkg == nil || callee.Pkg.Pkg.Path() != limPkg || callee.Signature.Recv() == nil {
+				continue
+			}
+			// the per-client limiter is the one that is given the client address
+			for _, a := range core.CallArgs(call)[1:] {
+				if core.TypeName(a.Type()) == "net/netip.Addr" {
+					if cc, ok := call.(*ssa.Call); ok {
+						clientCall, cFn = cc, hf
+					}
+				}
 			}
 		}
 	}
@@ -274,14 +282,14 @@ func r15h(c *core.Ctx) {
 		c.Unknown("client-gate", fn.Pos(), fn, "resourceLimiter.AllowN calls the per-client limiter with the client address", "no such call")
 		return
 	}
-	// returns with a non-nil error reachable from the call
+	// returns with a non-nil error reachable from the call (in the function that makes it)
 	var bad []string
-	for _, ret := range returnsOf(fn) {
+	for _, ret := range returnsOf(cFn) {
 		rs := core.ReturnResults(ret)
 		if len(rs) == 0 || core.IsNilConst(rs[len(rs)-1]) {
 			continue
 		}
-		if !reachableFrom(fn, clientCall, ret) {
+		if !reachableFrom(cFn, clientCall, ret) {
 			continue
 		}
 		// allowed only on the edge where the client limiter refused
@@ -302,6 +310,21 @@ func r15h(c *core.Ctx) {
 		}
 		if !refused {
 			bad = append(bad, "refusal at "+c.Rel(ret.Pos())+" after the client's bucket was charged")
+		}
+	}
+	// when the client limiter is asked by a helper: after the helper returned, AllowN only passes its verdict on
+	if cFn != fn {
+		for _, hc := range callsOfFn(fn, cFn) {
+			hv, _ := hc.(ssa.Value)
+			for _, ret := range returnsOf(fn) {
+				rs := core.ReturnResults(ret)
+				if len(rs) == 0 || core.IsNilConst(rs[len(rs)-1]) || !reachableFrom(fn, hc, ret) {
+					continue
+				}
+				if core.Unspill(rs[len(rs)-1]) != hv {
+					bad = append(bad, "refusal at "+c.Rel(ret.Pos())+" after the helper that charges the client's bucket")
+				}
+			}
 		}
 	}
 	c.Check(len(bad) == 0, "client-gate-last", clientCall.Pos(), fn, "after the per-client limiter admitted (and charged) a query, no other limit can still refuse it", strings.Join(bad, "; "))
